@@ -87,6 +87,7 @@ func closedWriters(c *core.Ctx, key string, allowed []string, sites []storeSite)
 	for _, a := range allowed {
 		allow[a] = true
 	}
+	expandAllowed(c, allow)
 	seen := map[string]token.Pos{}
 	for _, s := range sites {
 		n := core.FuncName(core.Outer(s.Fn))
